@@ -100,10 +100,10 @@ Proof.
   change CRLF with [rCR; rLF]. rewrite <- !app_assoc.
   rewrite (read_line_crlf o _ _ (hex_clean_clean _ C)), parse_chunk_header_hex.
   destruct (N.of_nat (length c)) eqn:E; [destruct c; [congruence|discriminate]|].
-  rewrite <- E, Nat2N.id.
-  assert (L : Nat.ltb (length (c ++ [rCR; rLF] ++ s)) (length c + 2) = false).
-  { apply PeanoNat.Nat.ltb_ge. rewrite !app_length. simpl. lia. }
-  rewrite L. rewrite firstn_app, PeanoNat.Nat.sub_diag, firstn_all, firstn_O, app_nil_r.
+  rewrite <- E.
+  assert (L : (N.of_nat (length (c ++ [rCR; rLF] ++ s)) <? N.of_nat (length c) + 2)%N = false).
+  { apply N.ltb_ge. rewrite !app_length. simpl. lia. }
+  rewrite L. cbv zeta. rewrite Nat2N.id. rewrite firstn_app, PeanoNat.Nat.sub_diag, firstn_all, firstn_O, app_nil_r.
   rewrite skipn_app, PeanoNat.Nat.sub_diag, skipn_all. cbn [app skipn].
   change (byte_eqb rCR rCR && byte_eqb rLF rLF) with true. cbv iota. reflexivity.
 Qed.
@@ -154,9 +154,9 @@ Qed.
 Theorem body_reframe_length o body rest :
   read_body o (BLLen (N.of_nat (length body))) (body ++ rest) = POk (body, [], rest).
 Proof.
-  unfold read_body. rewrite Nat2N.id.
-  assert (L : Nat.ltb (length (body ++ rest)) (length body) = false)
-    by (apply PeanoNat.Nat.ltb_ge; rewrite app_length; lia).
-  rewrite L, firstn_app, PeanoNat.Nat.sub_diag, firstn_all, firstn_O, app_nil_r.
+  unfold read_body.
+  assert (L : (N.of_nat (length (body ++ rest)) <? N.of_nat (length body))%N = false)
+    by (apply N.ltb_ge; rewrite app_length; lia).
+  rewrite L. cbv zeta. rewrite Nat2N.id, firstn_app, PeanoNat.Nat.sub_diag, firstn_all, firstn_O, app_nil_r.
   rewrite skipn_app, PeanoNat.Nat.sub_diag, skipn_all. reflexivity.
 Qed.
